@@ -30,6 +30,11 @@ CHECKS = {
             "Every vector of the file-flow family (which output type carries the file incl. projections through arrays/typed maps of structs, strings and untyped maps; split producer; sub-pipeline boundaries; mapped producer/consumer; late second consumer; stage/pipeline retain; returned by the top-level pipeline; pipestance below a symlinked directory with physically reported paths) x {call volatile, none, strict, false} x VDR {rolling, post, strict}: model jobs write real files and every consumer verifies each file named in its arguments at the moment it runs; at completion files named by top-level outputs and retains must be intact. Schedules: default, each job held/start-only, each VDR goroutine deferred 0/1/3 loop iterations.",
             "VDR goroutine bodies are treated as atomic w.r.t. the scheduler loop (deferred as a whole); stages follow Martian's contract for file outputs",
             "DESIGN.md 4/C04"),
+    "C11": ("exploration",
+            "exhaustive enumeration of a key alphabet on the real encoders and journal-name parser (injectivity + parse round trip), plus end-to-end runs of nested mapped calls over adversarial key sets with an exhaustive per-metadata-object notification routing probe on the real refresh path",
+            "(a) Unit level on makeKeySafe / mapKeyFork.forkString / encodeJournalName / Node.parseRunFilename: every key that is a concatenation of at most 3 (thorough 4) atoms of an 18-atom alphabet ('.', '/', '%', '2E', '2F', '25', space, non-ASCII, 'fork', 'chnk1', 'u0123456789', 'complete', newline, ...) plus the adversarial key sets: fork directory name is one legal path component, journal form holds no '.' or '/', both encodings are injective over the whole set, and every journal file name built from 3 call names (including calls named fork1, fork_x, chnk0) x 5 fork-id shapes x chunk {none,0,12} x attempt {none,u0123456789} x 4 notifications parses back to exactly its components. (b) End to end: programs nesting 1-2 mapped calls over literal and run-time arrays (lengths 1,2,10,11; thorough 9,100,101) and typed maps with 18 key sets (dots, slashes, percent signs, text that looks encoded, spaces, empty key, non-ASCII, numeric-looking, fork/chunk/attempt/notification look-alikes, case pairs, keys that are suffixes/prefixes of one another, shell and JSON metacharacters) plus every unordered pair of the 56 keys of one or two atoms of {a,b,_,.,/,%,0} (1540 run-time key sets), non-split and split leaves (2 and 11 chunks). Each run on the real runtime must complete, give every job its denoted arguments, run every fork exactly once and return collections with exactly the keys; fork directories and journal names must be pairwise distinct. Then for EVERY split/join/chunk metadata object of the finished pipestance and each of {complete, errors, progress} the journal file its job would write is written and consumed by the real Node.refreshState: exactly that object must be notified, and a file of another attempt must notify nobody.",
+            "keys whose encoded form exceeds the 255-byte file-name limit are outside the family (documented file-name restriction); journal files are written as mrjob writes them (base name of the run-file argument + phase prefix + name); the routing probe runs on the finished pipestance (all forks and chunks exist), routing during the run is covered indirectly by completion",
+            "DESIGN.md 4/C11"),
     "C13": ("exploration",
             "exhaustive enumeration of top-level output signatures x leaf modes x mapping/wrapping, run on the real runtime and post-processor, type-directed before/after walk of the outputs record",
             "2744 programs in the quick family (all combinations in thorough): top-level pipelines returning each of 14 producer outputs alone (user file type, file, arrays and typed maps of files, struct / struct array / typed map of structs holding a file, 2-dimensional file array, typed map of file arrays, struct of struct + array + map + explicitly named file, string and untyped map holding a path, directory, int) and three combinations x collection sizes {2,0,1,11} x leaf modes {written, null, named-but-missing, relative symlink, outside the pipestance} x explicit out names x mapped producer x mapped top-level call x pass-through sub-pipeline, plus 5 kinds of output-name collision (explicit vs default name in both declaration orders, two explicit names, inside a struct, file vs directory) and 5 map-key styles (unusual but legal file names; '/', '.', '..', empty; quotes, backslashes, control characters). Each program runs to completion on the real runtime with real files, then VDRKill + PostProcess as mrp does. Oracle: record is valid JSON of the same shape, non-file values unchanged, every non-null file leaf recorded at an existing location under outs/ holding exactly its producer's bytes (files are self-describing), leaves naming different files at different locations, file-type extension kept; colliding names must be rejected at compile time or materialised apart.",
